@@ -3,14 +3,14 @@
 import glob, json, os, subprocess, sys
 from concurrent.futures import ThreadPoolExecutor
 jobs = []
-for rnd, base in (("r1", "/root/seeds_in"), ("r2", "/root/seeds_in2")):
+for rnd, base in (("r1", "/root/seeds_in"), ("r2", "/root/seeds_in2"), ("r3", "/root/seeds_in3"), ("r4", "/root/seeds_in4")):
     for d in sorted(glob.glob(base + "/C*/[ab]")):
         prop, x = d.split("/")[-2:]
         patch = os.path.join(d, "patch.rebased.diff") if os.path.exists(os.path.join(d, "patch.rebased.diff")) else os.path.join(d, "patch.diff")
         jobs.append((rnd, prop, x, patch))
 only = sys.argv[1:] 
 if only:
-    jobs = [j for j in jobs if j[1] in only or f"{j[0]}:{j[1]}/{j[2]}" in only]
+    jobs = [j for j in jobs if j[1] in only or j[0] in only or f"{j[0]}:{j[1]}/{j[2]}" in only]
 
 def one(j):
     rnd, prop, x, patch = j
@@ -19,8 +19,13 @@ def one(j):
     sigs = sorted({l.split("signature=")[1] for l in lines if "signature=" in l})
     return {"round": rnd, "seed": f"{prop}/{x}", "patch": os.path.basename(patch), "rc": r.returncode, "signatures": sigs[:6], "tail": lines[-1:] }
 
-with ThreadPoolExecutor(max_workers=3) as ex:
+with ThreadPoolExecutor(max_workers=int(os.environ.get('SEED_JOBS', '3'))) as ex:
     res = list(ex.map(one, jobs))
+# merge with earlier results (a filtered run replaces only its own rows)
+old = json.load(open("/root/seed_matrix.json")) if os.path.exists("/root/seed_matrix.json") else []
+mine = {(r["round"], r["seed"]) for r in res}
+res = [r for r in old if (r["round"], r["seed"]) not in mine] + res
+res.sort(key=lambda r: (r["round"], r["seed"]))
 json.dump(res, open("/root/seed_matrix.json", "w"), indent=1)
 for r in res:
     print(r["round"], r["seed"], r["patch"], "rc=%s" % r["rc"], (r["signatures"] or r["tail"])[:2])
